@@ -128,6 +128,7 @@ var requests = []request{
 	{name: "field error", text: "{ a bad b }"},
 	{name: "success", text: "{ a b }"},
 	{name: "resolver panics", text: "{ a pan b }"},
+	{name: "null in a non-null field", text: "{ a o { nn } b }"},
 }
 
 func schema(exts []graphql.Extension) (graphql.Schema, error) {
@@ -136,6 +137,9 @@ func schema(exts []graphql.Extension) (graphql.Schema, error) {
 		"b":   &graphql.Field{Type: graphql.Int, Resolve: func(p graphql.ResolveParams) (interface{}, error) { checkCtx("resolver b", p.Context); return 2, nil }},
 		"bad": &graphql.Field{Type: graphql.String, Resolve: func(p graphql.ResolveParams) (interface{}, error) { return nil, errors.New("field failed") }},
 		"pan": &graphql.Field{Type: graphql.String, Resolve: func(p graphql.ResolveParams) (interface{}, error) { panic(errors.New("resolver panicked")) }},
+		"o": &graphql.Field{Type: graphql.NewObject(graphql.ObjectConfig{Name: "Obj", Fields: graphql.Fields{
+			"nn": &graphql.Field{Type: graphql.NewNonNull(graphql.String), Resolve: func(p graphql.ResolveParams) (interface{}, error) { return nil, nil }}}}),
+			Resolve: func(p graphql.ResolveParams) (interface{}, error) { return map[string]interface{}{}, nil }},
 		"f": &graphql.Field{Type: graphql.String, Args: graphql.FieldConfigArgument{"x": &graphql.ArgumentConfig{Type: graphql.Int}},
 			Resolve: func(p graphql.ResolveParams) (interface{}, error) { return "F", nil }},
 	}})
@@ -381,6 +385,9 @@ func balanced(log []string, req request, noPanics bool) string {
 			want = append(want, "resolve.start [a]", "resolve.finish [a] err=false", "resolve.start [bad]", "resolve.finish [bad] err=true", "resolve.start [b]", "resolve.finish [b] err=false")
 		case "success":
 			want = append(want, "resolve.start [a]", "resolve.finish [a] err=false", "resolve.start [b]", "resolve.finish [b] err=false")
+		case "null in a non-null field":
+			// the resolvers return cleanly; the failure arises when the value is completed
+			want = append(want, "resolve.start [a]", "resolve.finish [a] err=false", "resolve.start [o]", "resolve.finish [o] err=false", "resolve.start [o nn]", "resolve.finish [o nn] err=false", "resolve.start [b]", "resolve.finish [b] err=false")
 		case "resolver panics":
 			want = append(want, "resolve.start [a]", "resolve.finish [a] err=false", "resolve.start [pan]", "resolve.finish [pan] err=true", "resolve.start [b]", "resolve.finish [b] err=false")
 		}
